@@ -128,9 +128,10 @@ Definition recon (S : list N) (lam : coefs) (shares : N -> list F) : F :=
 
 (* ---- dealing as coded (kw.DealAndRevealDealerFunc) -------------------------------- *)
 
-(* the dealer samples a random column of D scalars and overwrites entry 0 with the secret *)
+(* the dealer samples a random column of D scalars and overwrites entry 0 with the secret;
+   NewDealerFunc refuses a column with fewer than 2 rows (one-column MSPs cannot be dealt) *)
 Definition deal_col (d : nat) (secret : F) (rnd : vec) : option vec :=
-  if Nat.eqb (length rnd) d && Nat.ltb 0 d then Some (secret :: tl rnd) else None.
+  if Nat.eqb (length rnd) d && Nat.leb 2 d then Some (secret :: tl rnd) else None.
 
 (* ---- HJKY --------------------------------------------------------------------- *)
 
